@@ -75,6 +75,10 @@ CLAIMS["C01"]["tech"] += "; strict-mode conformance of the real index and log wi
 CLAIMS["C12"]["text"] += (" Layer B: spec/WalBackup.tla models Backup at the grain of backup.go (capture of the segment list and append offsets in one read-locked section, lock-free copies, lock file) interleaved with writers, rollover and crashes; "
                           "TLC checks that the finished copy replays to the contents at the capture and that the copy never fails, and refutes three variants (copy active segments whole, no maintenance lock, list taken after the offsets).")
 CLAIMS["C12"]["tech"] = "TLC model check of spec/WalBackup.tla (Backup interleaved with writers; three variants refuted) + " + CLAIMS["C12"]["tech"]
+CLAIMS["C13"]["text"] += (" Exit paths: spec/WalClose.tla adds a Close that fails at any of its steps to Wal.tla (the lock file stays, the next Open recovers; the variant that removes the lock file after a failure to persist the index is refuted); "
+                          "on the real code Close is made to fail at each of its file-system calls and Open at seeded calls, the process exits, and Layer A judges the next Open (recovery iff the lock file is there, contents exactly the acknowledged ones).")
+CLAIMS["C07"]["text"] += " A further family runs on a file system whose reads of segment and index files pause before touching the file, which widens any window in which a reader is not protected by the lock."
+CLAIMS["C04"]["text"] += STRICT.replace("Strict-mode recordings", "Strict-mode recordings with simulated unclean shutdowns (garbage appended to, bytes cut off the newest segment)")
 CLAIMS["C17"]["text"] += (" Simulated unclean shutdowns append garbage to, or cut bytes off, the newest segment (then TLC requires the contents replayed by the independent decoder: Layer A's DamagedOpened), "
                           "or truncate it inside its header (outcome compared across file systems only).")
 NA_REASON = "not claimed"
